@@ -167,9 +167,30 @@ Theorem C13_nearest_declaration_outbound : forall w n,
 Proof. exact w_out_decl. Qed.
 Print Assumptions C13_nearest_declaration_outbound.
 
+(* "The address at which that inbound channel was actually bound": an ipc:// endpoint exists on
+   the binder's host only.  A peer on another host that names an IPC-addressed channel fails
+   the configuration (former finding C13-d: it used to be handed the path unchanged) ... *)
+Theorem C13_ipc_cross_host_rejected : forall tasks b i c t o,
+  wf_env tasks -> In b tasks -> names_ok b -> nth_error (t_in b) i = Some c ->
+  i_target c = [] -> i_ipc c = true ->
+  In t tasks -> t_chans t = true -> In o (t_out t) -> o_target o = t_path b ++ s_colon ++ i_name c ->
+  t_host t <> t_host b -> configure tasks = None.
+Proof. exact ipc_cross_host_rejected. Qed.
+Print Assumptions C13_ipc_cross_host_rejected.
+
+(* ... so in an accepted configuration such a peer runs on the host of the task that binds. *)
+Theorem C13_ipc_same_host : forall tasks ps b i c t o,
+  wf_env tasks -> configure tasks = Some ps -> In b tasks -> names_ok b -> nth_error (t_in b) i = Some c ->
+  i_target c = [] -> i_ipc c = true ->
+  In t tasks -> t_chans t = true -> In o (t_out t) -> o_target o = t_path b ++ s_colon ++ i_name c ->
+  t_host t = t_host b.
+Proof. exact ipc_same_host. Qed.
+Print Assumptions C13_ipc_same_host.
+
 (* The configuration is refused ONLY for a reason the property names: some outbound target names
    nothing, some inbound channel has an invalid target, an alias is declared twice in one task,
-   or an alias is in the local maps of two different tasks. *)
+   an alias is in the local maps of two different tasks, or an outbound target resolves to an
+   IPC endpoint recorded for another host. *)
 Theorem C13_refused_only_for_cause : forall tasks,
   (forall t, In t tasks -> path_ok (t_path t)) -> configure tasks = None ->
   (exists t o, In t tasks /\ t_chans t = true /\ In o (t_out t) /\ is_explicit (o_target o) = false /\
@@ -178,7 +199,8 @@ Theorem C13_refused_only_for_cause : forall tasks,
                i_target c <> [] /\ is_explicit (i_target c) = false) \/
   (exists t, In t tasks /\ alias_dup (t_in t) = true) \/
   (exists j1 j2 b1 b2 k e1 e2, (j1 < j2)%nat /\ nth_error tasks j1 = Some b1 /\ nth_error tasks j2 = Some b2 /\
-               is_alias_key k = true /\ In (k, e1) (t_local b1) /\ In (k, e2) (t_local b2)).
+               is_alias_key k = true /\ In (k, e1) (t_local b1) /\ In (k, e2) (t_local b2)) \/
+  (exists bm t, env_bindmap tasks = Some bm /\ In t tasks /\ cross_ipc tasks bm t = true).
 Proof. exact fails_only_for_cause. Qed.
 Print Assumptions C13_refused_only_for_cause.
 
@@ -242,7 +264,7 @@ Theorem C13_monitor_silent_accepted : forall ws os ports,
   let wpp := combine (combine ws (map snd os)) (ports ++ repeat [] (length ws)) in
   let bs := binders_of wpp in
   (forall w pr pt, In (w, pr, pt) wpp -> w_chans w = true ->
-     (forall d, In d (eff_out w) -> check_out bs pr d = 0) /\
+     (forall d, In d (eff_out w) -> check_out bs (w_host w) pr d = 0) /\
      (forall e, In e (eff_in w) -> check_in pt pr e = 0)) /\
   (forall w, In w ws -> NoDup (globals_of (eff_in w))) /\
   cross_dup (map free_aliases ws) = false /\
@@ -253,14 +275,16 @@ Print Assumptions C13_monitor_silent_accepted.
 
 (* a passed outbound check: told method connect; an explicit target unchanged with the declared
    transport; otherwise some channel that the target names (and that takes part in matching)
-   agrees with the address and transport told *)
-Theorem C13_monitor_outbound_sound : forall bs pr d,
-  check_out bs pr d = 0 ->
+   agrees with the address and transport told - and binds on the connecting task's own host
+   [host] when the address is an ipc:// one (code 16) *)
+Theorem C13_monitor_outbound_sound : forall bs host pr d,
+  check_out bs host pr d = 0 ->
   exists addr tr, assoc (o_name d) pr = Some (addr, m_connect, tr) /\
     (is_explicit (o_target d) = true -> addr = o_target d /\ tr = o_tr d) /\
     (is_explicit (o_target d) = false ->
      exists pt w prb e, In (pt, w, prb, e) bs /\ target_hits (o_target d) (w_path w) e = true /\
-                        good_hit addr tr (pt, w, prb, e) = true).
+                        good_hit addr tr (pt, w, prb, e) = true /\
+                        (has_prefix s_ipc addr = true -> w_host w = host)).
 Proof. exact check_out_sound. Qed.
 Print Assumptions C13_monitor_outbound_sound.
 
@@ -292,7 +316,7 @@ Print Assumptions C13_monitor_inbound_sound.
    is present in the declarations *)
 Theorem C13_monitor_silent_refused : forall ws ports,
   forallb w_clean ws = true -> mon_env ws None ports = 0 ->
-  unmatched_in ws = true \/ invalid_in ws = true \/ alias_twice ws = true.
+  unmatched_in ws = true \/ invalid_in ws = true \/ alias_twice ws = true \/ cross_ipc_in ws = true.
 Proof. exact monitor_silent_refused_sound. Qed.
 Print Assumptions C13_monitor_silent_refused.
 
